@@ -341,7 +341,8 @@ class Check:
         "parameter; required/optional/positional-only positionals, required/optional keyword-only, functions, "
         "plain methods and OvldBase methods, uniform or differing positional names) x call shapes (number of "
         "positionals x keyword subset x positional-by-keyword where documented x return/raise x entry via "
-        "dispatch function or Ovld object). Oracle: the target's own signature with unique sentinel defaults, "
+        "dispatch function or Ovld object; 1 case in 12 is a literal-table family: 4-5 Literal methods of one position; "
+        "every second raised exception is a TypeError subclass). Oracle: the target's own signature with unique sentinel defaults, "
         "everything by identity. Non-trivial = the call omits an optional parameter or supplies a keyword and "
         "the set has >=2 methods; distinct by (signature set, call) hash."
     )
